@@ -1,8 +1,8 @@
-\* (D) algebra: all 11 907 reactions with 1-2 species per side x coefficients {1/4,1,2} x TS none/1/2,
+\* (D) algebra, quick tier: 3 267 reactions with 1-2 species per side (coefficient pairs (1/4,1) (1,2) (2,1/4) (1,1)), TS none/1/2,
 \* three caller dictionaries, every public call once
 SPECIFICATION Spec
 CONSTANTS
-  Rxns <- MCRxns
+  Rxns <- QuickRxns
   KwParts <- KwSmall
   ProbeNames <- MCProbeNames
   ProbeBlocks <- MCProbeBlocks
